@@ -30,7 +30,9 @@ func dumpDB(d kv.DB) []string { return oxh.DumpDB(d, oxh.DumpOpts{SkipTerm: true
 // database, the way every replica does, and compares the result with db. It returns "" when
 // they are equal, otherwise a description.
 func FoldDiffers(ns string, shard int64, db kv.DB, entries []*proto.LogEntry, upTo int64) string {
-	ref, err := kv.NewDB(ns, shard, oxhMemFactory(), time.Hour, time2.SystemClock)
+	mf := oxhMemFactory()
+	defer mf.Close() // (a factory owns a block cache: thousands of executions per worker would pile them up)
+	ref, err := kv.NewDB(ns, shard, mf, time.Hour, time2.SystemClock)
 	if err != nil {
 		return ""
 	}
